@@ -607,7 +607,8 @@ def run(chk):
     chk.guard('C15.R', c15.check_reference_sim, chk)
     chk.rule('C16.M', 'shared with C16: datetimeNew evaluated with components spelled as host ints and as floats')
     chk.guard('C16.M', c16.check_datetime_new_sim, chk)
+
     chk.rule('C14.R', 'shared with C14: jsonStringify evaluated with the indent spelled as int and as float, integral floats inside values')
-    chk.guard('C14.R', c14.check_roundtrip_sim, chk)
+    chk._json_roundtrip_ok = bool(chk.guard('C14.R', c14.check_roundtrip_sim, chk))
     aware = chk.guard('C14.S', c14.check_substitutions, chk)
     chk.guard('C14.N', c14.check_number_cleanup, chk, aware or [])
